@@ -49,36 +49,29 @@ func c11Gen(t *rapid.T) c11Plan {
 	return p
 }
 
-// c11Internal renders the restorable in-memory settings of every service (in-package view).
+// c11Internal renders every service as it would be saved now (the in-package view: what the original keeps in
+// memory and what the restored proxy rebuilt must describe the same configuration). It goes through
+// Service.MarshalJSON rather than through field names, so that it survives refactorings of the in-memory layout.
+// The pause timeout of a service that is not paused is masked: it is the leftover of an earlier pause.
 func c11Internal(r *Router) map[string]string {
 	out := map[string]string{}
-	r.withReadLock(func() error {
-		for name, s := range r.services.All() {
-			var sb strings.Builder
-			fmt.Fprintf(&sb, "options=%+v targetOptions=%+v", s.options, s.targetOptions)
-			fmt.Fprintf(&sb, " active=%v", s.active.Targets().Names())
-			if s.rollout != nil {
-				fmt.Fprintf(&sb, " rollout=%v", s.rollout.Targets().Names())
-			} else {
-				sb.WriteString(" rollout=<none>")
-			}
-			pc := s.pauseController
-			fmt.Fprintf(&sb, " pause={%v %q", pc.GetState(), pc.GetStopMessage())
-			if pc.GetState() == PauseStatePaused {
-				fmt.Fprintf(&sb, " failAfter=%v", pc.FailAfter)
-			}
-			sb.WriteString("}")
-			if rc := s.rolloutController; rc != nil {
-				// the controller as it would be saved: independent of how it is laid out in memory
-				b, _ := json.Marshal(rc)
-				fmt.Fprintf(&sb, " split=%s", b)
-			} else {
-				sb.WriteString(" split=<none>")
-			}
-			out["internal/"+name] = sb.String()
+	for name, s := range r.services.All() {
+		b, err := json.Marshal(s)
+		if err != nil {
+			out["internal/"+name] = "marshal error: " + err.Error()
+			continue
 		}
-		return nil
-	})
+		var generic map[string]any
+		if json.Unmarshal(b, &generic) == nil {
+			if pc, ok := generic["pause_controller"].(map[string]any); ok {
+				if st, _ := pc["state"].(float64); int(st) != int(PauseStatePaused) {
+					delete(pc, "fail_after")
+				}
+			}
+			b, _ = json.Marshal(generic)
+		}
+		out["internal/"+name] = string(b)
+	}
 	return out
 }
 
@@ -185,8 +178,8 @@ func c11Field(body, key string) string {
 }
 
 func c11Compare(w *vfWorld, a, b *Router, m *vfModel, res *vfResult, ctx string, deep bool) bool {
-	sa := c06Snapshot(w, a, m, a.statePath)
-	sb := c06Snapshot(w, b, m, b.statePath)
+	sa := c06Snapshot(w, a, m, vfPathOf(a))
+	sb := c06Snapshot(w, b, m, vfPathOf(b))
 	for k, v := range c11Internal(a) {
 		sa[k] = v
 	}
@@ -292,13 +285,13 @@ func c11Run(t *testing.T, p c11Plan) (res vfResult) {
 			}
 		}
 		synctest.Wait()
-		raw, err := os.ReadFile(a.statePath)
+		raw, err := os.ReadFile(vfPathOf(a))
 		if err != nil {
 			res.failf("no-state-file", "state file after H1: %v", err)
 			return
 		}
 		os.WriteFile(w.statePath("b"), raw, 0o644)
-		b := NewRouter(w.statePath("b"))
+		b := vfNewRouter(w.statePath("b"))
 		w.adopt(b)
 		if err := b.RestoreLastSavedState(); err != nil {
 			res.failf("restore-failed", "restore: %v", err)
